@@ -2,7 +2,7 @@ import ChibiVerif.Model.LineNo
 import ChibiVerif.Spec.LineSpec
 
 /-! line protocol of `drv_c18 lineno` (bytes and names are lower-case hex strings, `-` = empty; ids are small numbers):
-  file <id> <name> <bytes>      enter a file (a `tokenize_file` call): → `file <id> no=<file_no> len=<text length> lf=<'\n' in text> text=<hex of the text tokenize() numbers>`
+  file <id> <name> <bytes>      enter a file (a `tokenize_file` call): → `file <id> no=<file_no> len=<text length> lf=<'\n' in text> text=<hex of the text tokenize() numbers, after convert_universal_chars>`
   dir <id> <off> <N> [<name>]   `#line`-family directive whose `#` is at file offset off: → `dir line=<line_no of the directive> delta=<new line_delta> name=<display_name>`
   tok <id> <off>                ordinary token at file offset off, now: → `tok line=<final line_no> name=<filename> fileno=<file_no> pos=<offset in text> byte=<byte there|-> raw=<line_no before delta> phys=<Spec.physLine> pend=<Spec.pendingSplices> start=<0|1>`
   linemac <id> <off>            `__LINE__` whose outermost origin token is at off: → `line <value>`
@@ -61,7 +61,7 @@ def lnStep (st : LnState) (ws : List String) : LnState × String :=
     match id.toNat?, parseHex name, parseHex hex with
     | some id, some nm, some bytes =>
       let (fs, idx) := enterFile st.files (strOfBytes nm)
-      let text := sourceText bytes
+      let text := tokenizerText bytes
       ({ files := fs, ents := ⟨id, idx, bytes, text⟩ :: st.ents },
        s!"file {id} no={(getFile fs (.input idx)).fileNo} len={text.length} lf={countLF text} text={hexOf text}")
     | _, _, _ => (st, "bad-op")
@@ -72,7 +72,7 @@ def lnStep (st : LnState) (ws : List String) : LnState × String :=
       | none => (st, "bad-id")
       | some e =>
         let f := curFile st e
-        let ln := lineNoOf e.text (posMap e.bytes off)
+        let ln := lineNoOf e.text (finalPos e.bytes off)
         let f' := readLineMarker f ln n (nm.map strOfBytes)
         ({ st with files := st.files.set e.idx f' }, s!"dir line={ln} delta={f'.lineDelta} name={hexStr f'.displayName}")
     | _, _, _, _ => (st, "bad-op")
@@ -83,7 +83,7 @@ def lnStep (st : LnState) (ws : List String) : LnState × String :=
       | none => (st, "bad-id")
       | some e =>
         let f := curFile st e
-        let pos := posMap e.bytes off
+        let pos := finalPos e.bytes off
         match cmd with
         | "tok" =>
           match runFile e.text f [.tok pos] with
@@ -113,7 +113,7 @@ def lnStep (st : LnState) (ws : List String) : LnState × String :=
       match findEnt st id with
       | none => (st, "bad-id")
       | some e =>
-        match addLineNumbers e.text (offs.map (posMap e.bytes) ++ [e.text.length]) with
+        match addLineNumbers e.text (offs.map (finalPos e.bytes) ++ [e.text.length]) with
         | .ok ls => (st, "addln " ++ " ".intercalate (ls.map toString))
         | .error _ => (st, "crash null-tok")
     | _, _ => (st, "bad-op")
